@@ -733,6 +733,276 @@ func stmts(b *ast.BlockStmt) []string {
 	return out
 }
 
+// arrayReader recognises the body of a Read*Array method
+//
+//	sz := int(in.<Count>())
+//	[if sz == 0 { return []T{} }]
+//	[in.CheckCount(sz, K)]
+//	v := make([]T, sz)
+//	for i := 0; i < sz; i++ { v[i] = [T(]in.<Elem>()[)] }
+//	return v
+//
+// and returns (count reader, zero shortcut, K (0 = no guard), element reader, element conversion).
+func arrayReader(fd *ast.FuncDecl) (string, bool) {
+	if fd.Body == nil {
+		return "", false
+	}
+	b := fd.Body.List
+	recvCall := func(e ast.Expr) (string, bool) { // in.X() with no arguments
+		c, ok := e.(*ast.CallExpr)
+		if !ok || len(c.Args) != 0 {
+			return "", false
+		}
+		sel, ok := c.Fun.(*ast.SelectorExpr)
+		if !ok {
+			return "", false
+		}
+		if id, ok := sel.X.(*ast.Ident); !ok || id.Name != "in" {
+			return "", false
+		}
+		return sel.Sel.Name, true
+	}
+	i := 0
+	if len(b) < 4 {
+		return "", false
+	}
+	as, ok := b[i].(*ast.AssignStmt)
+	if !ok || as.Tok != token.DEFINE || len(as.Lhs) != 1 || len(as.Rhs) != 1 {
+		return "", false
+	}
+	szId, ok := as.Lhs[0].(*ast.Ident)
+	if !ok {
+		return "", false
+	}
+	sz := szId.Name
+	conv, ok := as.Rhs[0].(*ast.CallExpr)
+	if !ok || len(conv.Args) != 1 {
+		return "", false
+	}
+	if id, ok := conv.Fun.(*ast.Ident); !ok || id.Name != "int" {
+		return "", false
+	}
+	cnt, ok := recvCall(conv.Args[0])
+	if !ok {
+		return "", false
+	}
+	i++
+	zero := false
+	if ifs, ok := b[i].(*ast.IfStmt); ok {
+		if ifs.Init != nil || ifs.Else != nil || src(ifs.Cond) != sz+" == 0" || len(ifs.Body.List) != 1 {
+			return "", false
+		}
+		ret, ok := ifs.Body.List[0].(*ast.ReturnStmt)
+		if !ok || len(ret.Results) != 1 {
+			return "", false
+		}
+		cl, ok := ret.Results[0].(*ast.CompositeLit)
+		if !ok || len(cl.Elts) != 0 {
+			return "", false
+		}
+		zero = true
+		i++
+	}
+	mb := "0"
+	if es, ok := b[i].(*ast.ExprStmt); ok {
+		c, ok := es.X.(*ast.CallExpr)
+		if !ok || len(c.Args) != 2 || src(c.Fun) != "in.CheckCount" || src(c.Args[0]) != sz {
+			return "", false
+		}
+		k, ok := intOf(c.Args[1], nil)
+		if !ok || strings.HasPrefix(k, "-") {
+			return "", false
+		}
+		mb = k
+		i++
+	}
+	if i+3 != len(b) {
+		return "", false
+	}
+	mk, ok := b[i].(*ast.AssignStmt)
+	if !ok || mk.Tok != token.DEFINE || len(mk.Lhs) != 1 || len(mk.Rhs) != 1 {
+		return "", false
+	}
+	v := src(mk.Lhs[0])
+	mc, ok := mk.Rhs[0].(*ast.CallExpr)
+	if !ok || src(mc.Fun) != "make" || len(mc.Args) != 2 || src(mc.Args[1]) != sz {
+		return "", false
+	}
+	i++
+	fs, ok := b[i].(*ast.ForStmt)
+	if !ok || fs.Init == nil || fs.Cond == nil || fs.Post == nil || src(fs.Init) != "i := 0" || src(fs.Cond) != "i < "+sz || src(fs.Post) != "i++" || len(fs.Body.List) != 1 {
+		return "", false
+	}
+	el, ok := fs.Body.List[0].(*ast.AssignStmt)
+	if !ok || el.Tok != token.ASSIGN || len(el.Lhs) != 1 || len(el.Rhs) != 1 || src(el.Lhs[0]) != v+"[i]" {
+		return "", false
+	}
+	elem, econv := "", ""
+	if n, ok := recvCall(el.Rhs[0]); ok {
+		elem = n
+	} else if c, ok := el.Rhs[0].(*ast.CallExpr); ok && len(c.Args) == 1 {
+		id, ok1 := c.Fun.(*ast.Ident)
+		n, ok2 := recvCall(c.Args[0])
+		if !ok1 || !ok2 {
+			return "", false
+		}
+		elem, econv = n, id.Name
+	} else {
+		return "", false
+	}
+	i++
+	if ret, ok := b[i].(*ast.ReturnStmt); !ok || len(ret.Results) != 1 || src(ret.Results[0]) != v {
+		return "", false
+	}
+	z := "false"
+	if zero {
+		z = "true"
+	}
+	return fmt.Sprintf("(%q, %s, %s, %q, %q)", cnt, z, mb, elem, econv), true
+}
+
+// arrayWriter recognises the body of a Write*Array method
+//
+//	if v == nil { out.<W0>(<lit>) } else { sz := len(v); out.<W1>(<conv>(sz)); for i := 0; i < sz; i++ { out.<W2>(v[i]) } }
+//
+// and returns (W0, lit, W1, conv, W2).
+func arrayWriter(fd *ast.FuncDecl) (string, bool) {
+	if fd.Body == nil || len(fd.Body.List) != 1 || fd.Type.Params == nil || len(fd.Type.Params.List) != 1 || len(fd.Type.Params.List[0].Names) != 1 {
+		return "", false
+	}
+	v := fd.Type.Params.List[0].Names[0].Name
+	outCall := func(st ast.Stmt) (string, ast.Expr, bool) { // out.X(arg)
+		es, ok := st.(*ast.ExprStmt)
+		if !ok {
+			return "", nil, false
+		}
+		c, ok := es.X.(*ast.CallExpr)
+		if !ok || len(c.Args) != 1 {
+			return "", nil, false
+		}
+		sel, ok := c.Fun.(*ast.SelectorExpr)
+		if !ok {
+			return "", nil, false
+		}
+		if id, ok := sel.X.(*ast.Ident); !ok || id.Name != "out" {
+			return "", nil, false
+		}
+		return sel.Sel.Name, c.Args[0], true
+	}
+	ifs, ok := fd.Body.List[0].(*ast.IfStmt)
+	if !ok || ifs.Init != nil || src(ifs.Cond) != v+" == nil" || len(ifs.Body.List) != 1 {
+		return "", false
+	}
+	w0, a0, ok := outCall(ifs.Body.List[0])
+	if !ok {
+		return "", false
+	}
+	lit, ok := intOf(a0, nil)
+	if !ok || strings.HasPrefix(lit, "-") {
+		return "", false
+	}
+	els, ok := ifs.Else.(*ast.BlockStmt)
+	if !ok || len(els.List) != 3 || src(els.List[0]) != "sz := len("+v+")" {
+		return "", false
+	}
+	w1, a1, ok := outCall(els.List[1])
+	if !ok {
+		return "", false
+	}
+	cc, ok := a1.(*ast.CallExpr)
+	if !ok || len(cc.Args) != 1 || src(cc.Args[0]) != "sz" {
+		return "", false
+	}
+	conv := src(cc.Fun)
+	fs, ok := els.List[2].(*ast.ForStmt)
+	if !ok || fs.Init == nil || fs.Cond == nil || fs.Post == nil || src(fs.Init) != "i := 0" || src(fs.Cond) != "i < sz" || src(fs.Post) != "i++" || len(fs.Body.List) != 1 {
+		return "", false
+	}
+	w2, a2, ok := outCall(fs.Body.List[0])
+	if !ok || src(a2) != v+"[i]" {
+		return "", false
+	}
+	return fmt.Sprintf("(%q, %s, %q, %q, %q)", w0, lit, w1, conv, w2), true
+}
+
+// lenPrefixedWriter recognises the bodies of WriteIntBytes / WriteShortBytes / WriteTextShortLength
+//
+//	if b == nil || len(b) == 0 { out.<W0>(<lit>) } else { out.<W1>(<conv>(len(b))); out.WriteBytes(b) }
+//	if v == "" { out.<W0>(<lit>) } else { b := []byte(v); out.<W1>(<conv>(len(b))); out.WriteBytes(b) }
+//
+// (a trailing `return out` is allowed) and returns (W0, lit, W1, conv).
+func lenPrefixedWriter(fd *ast.FuncDecl) (string, bool) {
+	if fd.Body == nil || fd.Type.Params == nil || len(fd.Type.Params.List) != 1 || len(fd.Type.Params.List[0].Names) != 1 {
+		return "", false
+	}
+	v := fd.Type.Params.List[0].Names[0].Name
+	body := fd.Body.List
+	if len(body) == 2 && src(body[1]) == "return out" {
+		body = body[:1]
+	}
+	if len(body) != 1 {
+		return "", false
+	}
+	outCall := func(st ast.Stmt) (string, ast.Expr, bool) {
+		es, ok := st.(*ast.ExprStmt)
+		if !ok {
+			return "", nil, false
+		}
+		c, ok := es.X.(*ast.CallExpr)
+		if !ok || len(c.Args) != 1 {
+			return "", nil, false
+		}
+		sel, ok := c.Fun.(*ast.SelectorExpr)
+		if !ok {
+			return "", nil, false
+		}
+		if id, ok := sel.X.(*ast.Ident); !ok || id.Name != "out" {
+			return "", nil, false
+		}
+		return sel.Sel.Name, c.Args[0], true
+	}
+	ifs, ok := body[0].(*ast.IfStmt)
+	if !ok || ifs.Init != nil || len(ifs.Body.List) != 1 {
+		return "", false
+	}
+	cond := src(ifs.Cond)
+	els, ok := ifs.Else.(*ast.BlockStmt)
+	if !ok {
+		return "", false
+	}
+	rest := els.List
+	bytesVar := v
+	switch {
+	case cond == v+" == nil || len("+v+") == 0" && len(rest) == 2:
+	case cond == v+` == ""` && len(rest) == 3 && src(rest[0]) == "b := []byte("+v+")":
+		bytesVar = "b"
+		rest = rest[1:]
+	default:
+		return "", false
+	}
+	w0, a0, ok := outCall(ifs.Body.List[0])
+	if !ok {
+		return "", false
+	}
+	lit, ok := intOf(a0, nil)
+	if !ok || strings.HasPrefix(lit, "-") {
+		return "", false
+	}
+	w1, a1, ok := outCall(rest[0])
+	if !ok {
+		return "", false
+	}
+	cc, ok := a1.(*ast.CallExpr)
+	if !ok || len(cc.Args) != 1 || src(cc.Args[0]) != "len("+bytesVar+")" {
+		return "", false
+	}
+	w2, a2, ok := outCall(rest[1])
+	if !ok || w2 != "WriteBytes" || src(a2) != bytesVar {
+		return "", false
+	}
+	return fmt.Sprintf("(%q, %s, %q, %q)", w0, lit, w1, src(cc.Fun)), true
+}
+
 func main() {
 	repo := flag.String("repo", "/repo", "")
 	outp := flag.String("out", "", "")
@@ -859,6 +1129,51 @@ func main() {
 	}
 	sort.Strings(pw)
 	b.WriteString(strings.Join(pw, ",\n"))
+	b.WriteString("\n]\n\n")
+	b.WriteString("/-- array readers, structured: (count reader, `if sz == 0` shortcut, CheckCount's minBytes (0 = no guard), element reader, element conversion); `none` = another shape -/\ndef arrayReaders : List (String × Option (String × Bool × Nat × String × String)) := [\n")
+	var ar []string
+	for n, fd := range fsi {
+		if strings.HasPrefix(n, "m.Read") && strings.HasSuffix(n, "Array") || n == "m.ReadDecimalArrayInt" {
+			v, ok := arrayReader(fd)
+			if ok {
+				v = "some " + v
+			} else {
+				v = "none"
+			}
+			ar = append(ar, fmt.Sprintf("  (%q, %s)", n[2:], v))
+		}
+	}
+	sort.Strings(ar)
+	b.WriteString(strings.Join(ar, ",\n"))
+	b.WriteString("\n]\n\n")
+	b.WriteString("/-- array writers, structured: (count writer of the nil branch, its literal, count writer, conversion of the count, element writer); `none` = another shape -/\ndef arrayWriters : List (String × Option (String × Nat × String × String × String)) := [\n")
+	var aw []string
+	for n, fd := range fso {
+		if strings.HasPrefix(n, "m.Write") && strings.HasSuffix(n, "Array") {
+			v, ok := arrayWriter(fd)
+			if ok {
+				v = "some " + v
+			} else {
+				v = "none"
+			}
+			aw = append(aw, fmt.Sprintf("  (%q, %s)", n[2:], v))
+		}
+	}
+	sort.Strings(aw)
+	b.WriteString(strings.Join(aw, ",\n"))
+	b.WriteString("\n]\n\n")
+	b.WriteString("/-- length-prefixed byte-string writers, structured: (length writer of the nil/empty branch, its literal, length writer, conversion of the length); the payload goes to WriteBytes; `none` = another shape -/\ndef lenPrefixed : List (String × Option (String × Nat × String × String)) := [\n")
+	var lp []string
+	for _, n := range []string{"m.WriteIntBytes", "m.WriteShortBytes", "m.WriteTextShortLength"} {
+		v := "none"
+		if fd, ok := fso[n]; ok {
+			if x, ok := lenPrefixedWriter(fd); ok {
+				v = "some " + x
+			}
+		}
+		lp = append(lp, fmt.Sprintf("  (%q, %s)", n[2:], v))
+	}
+	b.WriteString(strings.Join(lp, ",\n"))
 	b.WriteString("\n]\n\n")
 	rb := []string{"<missing>"}
 	if fd, ok := fsi["m.ReadBytes"]; ok && fd.Body != nil {
